@@ -379,3 +379,97 @@ func GoodSwitchOr(a int, b bool) int {
 		return 0
 	}
 }
+
+// ---- round 5 helpers: control dependence, reached phi inputs, recursion with a visited set, in-place map mutation ----
+
+type tbl struct {
+	Name    string
+	entries []string
+}
+
+func GoodRegister(m map[string]*tbl, ts []*tbl) {
+	for _, t := range ts {
+		if t != nil {
+			m[t.Name] = t
+		}
+	}
+}
+
+func BadRegister(m map[string]*tbl, ts []*tbl) {
+	for _, t := range ts {
+		if t == nil || len(t.entries) == 0 {
+			continue
+		}
+		m[t.Name] = t
+	}
+}
+
+func isMissing(err error) bool { return err != nil && err.Error() == "missing" }
+
+func GoodLookupErr(m map[string]int, k string) (found bool, n int, retErr error) {
+	v, err := lookupChecked(m, k, 1)
+	if err != nil {
+		if !isMissing(err) {
+			retErr = err
+		}
+	} else {
+		found = true
+		n = v
+	}
+	return
+}
+
+func BadLookupErr(m map[string]int, k string) (found bool, n int, retErr error) {
+	v, err := lookupChecked(m, k, 1)
+	if err != nil {
+		return false, 0, nil
+	}
+	return true, v, nil
+}
+
+func GoodSearch(adj map[int][]int, start int) bool {
+	var visit func(i int, seen map[int]bool) bool
+	visit = func(i int, seen map[int]bool) bool {
+		for _, j := range adj[i] {
+			if seen[j] {
+				continue
+			}
+			seen[j] = true
+			if j == 0 || visit(j, seen) {
+				return true
+			}
+		}
+		return false
+	}
+	return visit(start, map[int]bool{})
+}
+
+type labelled struct {
+	Labels map[string]string
+}
+
+func GoodRelabel(l *labelled) { l.Labels = nil }
+func BadRelabel(l *labelled)  { delete(l.Labels, "x") }
+
+func GoodListOnce(in []string, k string) []string {
+	var out []string
+	for _, s := range in {
+		if s == k {
+			out = append(out, s)
+		}
+	}
+	return out
+}
+
+func BadListTwice(in []string, k string) []string {
+	var out []string
+	for _, s := range in {
+		if s == k {
+			out = append(out, s)
+		}
+		if len(s) > len(k) {
+			out = append(out, s)
+		}
+	}
+	return out
+}
